@@ -531,6 +531,12 @@ impl<'a> BInterp<'a> {
             }
         };
         let mut bad: Vec<(&'static str, &'static str, String)> = Vec::new();
+        // chunk() and has_remaining() never panic for a Buf that obeys the laws, whatever its position
+        if catch_unwind(AssertUnwindSafe(|| (root.chunk().len(), root.has_remaining()))).is_err() {
+            self.v("C09", "unexpected-panic", format!("chunk() / has_remaining() panicked ({} bytes are left in the sequence)", mrem));
+            self.ended = true;
+            return;
+        }
         {
             let ch = root.chunk();
             let mut h = rem as u64 ^ ((ch.len() as u64) << 40);
@@ -569,6 +575,23 @@ impl<'a> BInterp<'a> {
             if soft && self.viols.len() > n {
                 self.viols[n].soft = true;
             }
+        }
+    }
+    /// a bulk read returned other bytes than the sequence holds, through a tree that contains take / chain: the adapter
+    /// does not deliver "the first min(n, remaining) bytes" / "all of a and then b" (also C12)
+    fn adapter_bytes_c12(&mut self, what: &'static str) {
+        let through_adapter = self.root.as_ref().map_or(false, |r| has_take(r) || has_chain(r));
+        if through_adapter {
+            self.v("C12", "adapter-delivers-other-bytes", format!("{} through a tree with take / chain returned bytes that are not the next bytes of the sequence", what));
+        }
+    }
+    /// a typed read whose wrong bytes are the allocator's guard (0xa5) or poison (0xdd) value: the crate read behind the end
+    /// of a chunk, outside the allocation (C02); leaves that end where their allocation ends have a red zone right behind
+    fn oob_read_c02(&mut self, got: u128, want: u128, size: usize) {
+        let (g, w) = (got.to_le_bytes(), want.to_le_bytes());
+        let diff: Vec<u8> = (0..size.min(16)).filter(|&i| g[i] != w[i]).map(|i| g[i]).collect();
+        if !diff.is_empty() && diff.iter().all(|&b| b == crate::oalloc::GUARD || b == crate::oalloc::POISON) {
+            self.v("C02", "out-of-bounds-read(guard bytes in a typed read)", format!("a typed read returned {:#x} where {:#x} was expected; every differing byte is the allocator's guard / poison value", got, want));
         }
     }
     pub fn hard_viol(&self) -> bool {
@@ -669,6 +692,7 @@ impl<'a> BInterp<'a> {
                     let r = catch_unwind(AssertUnwindSafe(|| root.copy_to_slice(&mut dst)));
                     if r.is_ok() && n <= rem && dst[..] != rest[..n] {
                         self.v("C09", "copy_to_slice-bytes", format!("copied {:02x?}, next bytes are {:02x?}", &dst[..n.min(12)], &rest[..n.min(12)]));
+                        self.adapter_bytes_c12("copy_to_slice-bytes");
                     }
                     self.consumed(n, rem, chunk, r.is_err(), "copy_to_slice");
                 } else {
@@ -677,6 +701,7 @@ impl<'a> BInterp<'a> {
                         Ok(Ok(())) => {
                             if n <= rem && dst[..] != rest[..n] {
                                 self.v("C09", "try_copy_to_slice-bytes", format!("copied {:02x?}, next bytes are {:02x?}", &dst[..n.min(12)], &rest[..n.min(12)]));
+                        self.adapter_bytes_c12("try_copy_to_slice-bytes");
                             }
                             self.consumed(n, rem, chunk, false, "try_copy_to_slice");
                         }
@@ -704,6 +729,7 @@ impl<'a> BInterp<'a> {
                     Ok(bts) => {
                         if n <= rem && bts[..] != rest[..n] {
                             self.v("C09", "copy_to_bytes-bytes", format!("returned {:02x?} (len {}), next bytes are {:02x?}", &bts[..bts.len().min(12)], bts.len(), &rest[..n.min(12)]));
+                        self.adapter_bytes_c12("copy_to_bytes-bytes");
                         }
                         self.consumed(n, rem, chunk, false, "copy_to_bytes");
                     }
@@ -726,6 +752,7 @@ impl<'a> BInterp<'a> {
                                 let want = decode(g, &rest, nb);
                                 if v != want {
                                     self.v("C10", "decoded-value", format!("get_{}: got {:#x}, bytes {:02x?} decode to {:#x}", g.name, v, &rest[..size], want));
+                                    self.oob_read_c02(v, want, size);
                                 }
                                 self.note_typed(size, chunk, g.signed && size > 0 && rest[if g.endian == 0 { 0 } else { size - 1 }] & 0x80 != 0);
                             }
@@ -742,6 +769,7 @@ impl<'a> BInterp<'a> {
                                 let want = decode(g, &rest, nb);
                                 if v != want {
                                     self.v("C10", "decoded-value", format!("try_get_{}: got {:#x}, bytes {:02x?} decode to {:#x}", g.name, v, &rest[..size], want));
+                                    self.oob_read_c02(v, want, size);
                                 }
                                 self.note_typed(size, chunk, g.signed && size > 0 && rest[if g.endian == 0 { 0 } else { size - 1 }] & 0x80 != 0);
                                 self.consumed_p(size, rem, chunk, false, "try_get_X", "C10");
@@ -1062,6 +1090,15 @@ fn first_take_mut(n: &mut Node) -> Option<&mut bytes::buf::Take<Box<Node>>> {
             }
         }
         _ => None,
+    }
+}
+fn has_chain(n: &Node) -> bool {
+    match n {
+        Node::Chain(_) => true,
+        Node::Take(t) => has_chain(t.get_ref()),
+        Node::Boxed(b) => has_chain(b),
+        Node::MutRef(m) => has_chain(m.inner()),
+        _ => false,
     }
 }
 fn has_take(n: &Node) -> bool {
